@@ -36,9 +36,10 @@ THEOREMS = [_T + n for n in [
     "C10_export_switches_bbox", "C10_export_error_policy_ignore", "C10_export_error_policy_raise",
     "C10_export_order", "C10_export_no_error_all",
     # round trip
-    "C10_roundtrip_label", "C10_roundtrip_segment", "C10_roundtrip_segment_samples", "C10_roundtrip_bbox",
-    "C10_roundtrip_sequence", "C10_roundtrip_annotation_bbox", "C10_roundtrip_annotation_seq",
-    "C10_roundtrip_holds_segment", "C10_roundtrip_holds_sequence",
+    "C10_roundtrip_label", "C10_roundtrip_segment", "C10_roundtrip_segment_samples", "C10_roundtrip_segment_general",
+    "C10_roundtrip_sequence_general", "C10_roundtrip_holds_general", "C10_roundtrip_bbox", "C10_roundtrip_sequence",
+    "C10_roundtrip_annotation_bbox", "C10_roundtrip_annotation_seq", "C10_roundtrip_holds_segment",
+    "C10_roundtrip_holds_sequence",
     # the defects of the pinned commit, as theorems about the pinned cascades
     "C10_pinned_to_tags_differs_iff", "C10_pinned_from_tags_differs_iff",
 ]]
@@ -853,7 +854,7 @@ def _symbolic_ties(ctx):
     V = ["s", "lo", "e", "hi", "sr"]
     s, lo, e, hi, sr = [Sym.var(v) for v in V]
     with _Patched(boxmod, compute_bounds=lambda g: (s, lo, e, hi), label_from_tags=lambda tags, **kw: "x"):
-        obj = NS(sound_event=NS(geometry=_G(None, "BoundingBox"), recording=NS(samplerate=sr)), tags=[])
+        obj = NS(sound_event=NS(geometry=_G([s, lo, e, hi], "BoundingBox"), recording=NS(samplerate=sr)), tags=[])
 
         def thunk():
             b = boxmod.bbox_from_annotation(obj)
@@ -1219,7 +1220,7 @@ def _model_defaults(ctx):
 
 
 def _stage_cascades(ctx):
-    full = ctx.thorough()
+    full = True        # the whole abstracted option space in both tiers (about 80 000 combinations, 15 s)
     ctx.run_cases(OPS["term_key"], [{"key": k} for k in ["crowsetta", "", "a b", "species", "ü:1", "k1"]])
     c = _count(ctx, "enum:label_to_tags", enum_label_to_tags(full))
     ctx.run_cases(OPS["label_to_tags"], c)
@@ -1240,7 +1241,7 @@ def _stage_cascades(ctx):
 
 def _stage_import(ctx):
     rng = ctx.rng
-    n = ctx.budget(1200, 20000)
+    n = ctx.budget(3000, 20000)
     ctx.run_cases(OPS["import_segment"], _count(ctx, "import_segment:pow2", gen_import_segment(rng, n, POW2_TE, POW2_SR)))
     ctx.run_cases(OPS["import_segment_r1"], _count(ctx, "import_segment:seconds,decimal te",
                                                   gen_import_segment(rng, n // 2, DEC_TE + POW2_TE, INT_SR, seconds="seconds")))
@@ -1253,23 +1254,23 @@ def _stage_import(ctx):
     ctx.run_cases(OPS["import_sequence"], [
         {"segments": gen_segments(rng, 6, valid=0.97),
          "rec": {"samplerate": rng.choice(POW2_SR), "te": rng.choice(POW2_TE)}, "adjust": rng.random() < 0.7,
-         "opts": rng.choice(LABEL_OPTS)} for _ in range(ctx.budget(300, 4000))])
-    ctx.run_cases(OPS["import_annotation"], gen_import_annotation(rng, ctx.budget(300, 4000)))
+         "opts": rng.choice(LABEL_OPTS)} for _ in range(ctx.budget(800, 4000))])
+    ctx.run_cases(OPS["import_annotation"], gen_import_annotation(rng, ctx.budget(800, 4000)))
 
 
 def _stage_export(ctx, defaults):
     rng = ctx.rng
-    reps = ctx.budget(12, 150)
+    reps = ctx.budget(30, 150)
     ctx.run_cases(OPS["export_segment"], _count(ctx, "export_segment:9 types x cast", gen_export_segment(rng, reps, defaults)))
     ctx.run_cases(OPS["export_bbox"], _count(ctx, "export_bbox:9 types x cast x raise", gen_export_bbox(rng, reps // 2, defaults)))
     ctx.exhaustive["export_bbox Nyquist grid"] = "box low/high on i/2, i=0..9, all pairs x samplerate in {4, 6, 7, 8}"
-    ctx.run_cases(OPS["export_sequence"], gen_export_sequence(rng, ctx.budget(300, 4000), defaults))
-    ctx.run_cases(OPS["export_annotation"], gen_export_annotation(rng, ctx.budget(300, 4000), defaults))
+    ctx.run_cases(OPS["export_sequence"], gen_export_sequence(rng, ctx.budget(800, 4000), defaults))
+    ctx.run_cases(OPS["export_annotation"], gen_export_annotation(rng, ctx.budget(800, 4000), defaults))
 
 
 def _stage_roundtrip(ctx):
     rng = ctx.rng
-    m = ctx.budget(500, 8000)
+    m = ctx.budget(1500, 8000)
     ctx.run_cases(OPS["roundtrip_segment"], gen_rt_segment(rng, m))
     ctx.run_cases(OPS["roundtrip_segment_free"], gen_rt_segment_free(rng, m))
     ctx.run_cases(OPS["roundtrip_bbox"], gen_rt_bbox(rng, m))
